@@ -408,6 +408,23 @@ def supcell_gridgen(latt_cart, shape):
     return neigh_i_grid, neigh_grid
 
 
+def _reduce_to_cell(v, latt_cart, pbc):
+    """Subtract from each vector the lattice vector given by its rounded
+    fractional coordinates along the periodic directions. Returns the reduced
+    vectors and the integer cell shifts that were removed."""
+
+    v = np.array(v, dtype=float)
+    pbc = np.array(pbc, dtype=bool)
+    shifts = np.zeros(v.shape, dtype=int)
+    if pbc.any() and v.shape[0] > 0:
+        try:
+            fv = np.linalg.solve(np.array(latt_cart, dtype=float).T, v.T).T
+        except np.linalg.LinAlgError:
+            return v, shifts
+        shifts = np.where(pbc[None, :], np.round(fv), 0).astype(int)
+    return v - np.dot(shifts, latt_cart), shifts
+
+
 def minimum_periodic(v, latt_cart, exclude_self=False, pbc=[True, True, True]):
     """
     Find the shortest periodic equivalent vector for a list of vectors and a
@@ -436,17 +453,24 @@ def minimum_periodic(v, latt_cart, exclude_self=False, pbc=[True, True, True]):
 
     """
 
+    # Start from the copy closest to the origin in fractional space, so that
+    # the supercell built around the origin is guaranteed to hold the minimum
+    v, v_shifts = _reduce_to_cell(v, latt_cart, pbc)
     max_r = np.amax(np.linalg.norm(v, axis=-1))
+    if exclude_self and np.any(pbc):
+        # The grid must reach at least one non-zero lattice vector
+        latt_r = np.linalg.norm(np.array(latt_cart)[np.array(pbc, dtype=bool)], axis=-1)
+        max_r = max(max_r, np.amin(latt_r))
     scell_shape = minimum_supcell(max_r, latt_cart, pbc=pbc)
     neigh_i_grid, neigh_grid = supcell_gridgen(latt_cart, scell_shape)
-    v_period = np.array(v, copy=False)[:, None, :] + neigh_grid[None, :, :]
+    v_period = v[:, None, :] + neigh_grid[None, :, :]
     v_norm = np.linalg.norm(v_period, axis=-1)
     if exclude_self:
         v_norm = np.where(v_norm > 0, v_norm, np.inf)
     min_copies = np.argmin(v_norm, axis=1)
     v_period = v_period[range(len(v)), min_copies, :]
 
-    return v_period, neigh_i_grid[min_copies]
+    return v_period, neigh_i_grid[min_copies] - v_shifts
 
 
 def all_periodic(v, latt_cart, max_r, pbc=[True, True, True]):
@@ -477,13 +501,14 @@ def all_periodic(v, latt_cart, max_r, pbc=[True, True, True]):
 
     """
 
+    v, v_shifts = _reduce_to_cell(v, latt_cart, pbc)
     scell_shape = minimum_supcell(max_r, latt_cart, pbc=pbc)
     neigh_i_grid, neigh_grid = supcell_gridgen(latt_cart, scell_shape)
-    v_period = np.array(v, copy=False)[:, None, :] + neigh_grid[None, :, :]
+    v_period = v[:, None, :] + neigh_grid[None, :, :]
     r_copies = np.where(np.linalg.norm(v_period, axis=-1) <= max_r)
     v_period = v_period[r_copies[0], r_copies[1], :]
 
-    return v_period, r_copies[0], neigh_i_grid[r_copies[1]]
+    return v_period, r_copies[0], neigh_i_grid[r_copies[1]] - v_shifts[r_copies[0]]
 
 
 def is_string(s):
